@@ -342,8 +342,14 @@ func TreeMarshalCopyTree(tr *TreeNode) *TreeMarshal {
 
 // MakeTree creates a tree given an Roster
 func (tm TreeMarshal) MakeTree(ro *Roster) (*Tree, error) {
+	if ro == nil {
+		return nil, xerrors.New("no roster given")
+	}
 	if !ro.ID.Equal(tm.RosterID) {
 		return nil, xerrors.New("Not correct Roster-Id")
+	}
+	if len(tm.Children) != 1 || tm.Children[0] == nil {
+		return nil, xerrors.New("tree description needs exactly one root")
 	}
 	tree := &Tree{
 		ID:     tm.TreeID,
